@@ -379,6 +379,8 @@ class EptMapResult:
         # tower_offset = int.from_bytes(view[32:40], byteorder="little")
         tower_count = int.from_bytes(view[40:48], byteorder="little")
         tower_data_offset = 8 * tower_count  # Ignore referent ids
+        if 48 + tower_data_offset > len(view):
+            raise ValueError("Failed to unpack EptMapResult as the tower count exceeds the data available")
         view = view[48 + tower_data_offset :]
 
         towers: t.List[t.List[Floor]] = []
